@@ -695,6 +695,7 @@ package asm
 //@   requires a.n >= 0 && a.n <= len(a.code)
 //@   panics (!isnil(a.code) && a.n+2 > len(a.code))
 //@   onpanic a.n == old(a.n) && a.address == old(a.address)
+//@   onpanic all(k, string, has(a.danglingS8, k) == old(has(a.danglingS8, k)) && len(a.danglingS8[k]) == old(len(a.danglingS8[k])))
 //@   onpanic all(j, int, 0 <= j && j < len(a.code) ==> a.code[j] == old(a.code[j]))
 //@   ensures w65c816.Opcode("bne", "rel8") >= 0 && w65c816.Len(uint8(w65c816.Opcode("bne", "rel8")), a.IsM16bit(), a.IsX16bit()) == 2
 //@   ensures a.address == old(a.address)+2
@@ -724,6 +725,7 @@ package asm
 //@   requires a.n >= 0 && a.n <= len(a.code)
 //@   panics (!isnil(a.code) && a.n+2 > len(a.code))
 //@   onpanic a.n == old(a.n) && a.address == old(a.address)
+//@   onpanic all(k, string, has(a.danglingS8, k) == old(has(a.danglingS8, k)) && len(a.danglingS8[k]) == old(len(a.danglingS8[k])))
 //@   onpanic all(j, int, 0 <= j && j < len(a.code) ==> a.code[j] == old(a.code[j]))
 //@   ensures w65c816.Opcode("beq", "rel8") >= 0 && w65c816.Len(uint8(w65c816.Opcode("beq", "rel8")), a.IsM16bit(), a.IsX16bit()) == 2
 //@   ensures a.address == old(a.address)+2
@@ -753,6 +755,7 @@ package asm
 //@   requires a.n >= 0 && a.n <= len(a.code)
 //@   panics (!isnil(a.code) && a.n+2 > len(a.code))
 //@   onpanic a.n == old(a.n) && a.address == old(a.address)
+//@   onpanic all(k, string, has(a.danglingS8, k) == old(has(a.danglingS8, k)) && len(a.danglingS8[k]) == old(len(a.danglingS8[k])))
 //@   onpanic all(j, int, 0 <= j && j < len(a.code) ==> a.code[j] == old(a.code[j]))
 //@   ensures w65c816.Opcode("bpl", "rel8") >= 0 && w65c816.Len(uint8(w65c816.Opcode("bpl", "rel8")), a.IsM16bit(), a.IsX16bit()) == 2
 //@   ensures a.address == old(a.address)+2
@@ -767,6 +770,7 @@ package asm
 //@   requires a.n >= 0 && a.n <= len(a.code)
 //@   panics (!isnil(a.code) && a.n+2 > len(a.code))
 //@   onpanic a.n == old(a.n) && a.address == old(a.address)
+//@   onpanic all(k, string, has(a.danglingS8, k) == old(has(a.danglingS8, k)) && len(a.danglingS8[k]) == old(len(a.danglingS8[k])))
 //@   onpanic all(j, int, 0 <= j && j < len(a.code) ==> a.code[j] == old(a.code[j]))
 //@   ensures w65c816.Opcode("bmi", "rel8") >= 0 && w65c816.Len(uint8(w65c816.Opcode("bmi", "rel8")), a.IsM16bit(), a.IsX16bit()) == 2
 //@   ensures a.address == old(a.address)+2
@@ -781,6 +785,7 @@ package asm
 //@   requires a.n >= 0 && a.n <= len(a.code)
 //@   panics (!isnil(a.code) && a.n+2 > len(a.code))
 //@   onpanic a.n == old(a.n) && a.address == old(a.address)
+//@   onpanic all(k, string, has(a.danglingS8, k) == old(has(a.danglingS8, k)) && len(a.danglingS8[k]) == old(len(a.danglingS8[k])))
 //@   onpanic all(j, int, 0 <= j && j < len(a.code) ==> a.code[j] == old(a.code[j]))
 //@   ensures w65c816.Opcode("bcc", "rel8") >= 0 && w65c816.Len(uint8(w65c816.Opcode("bcc", "rel8")), a.IsM16bit(), a.IsX16bit()) == 2
 //@   ensures a.address == old(a.address)+2
@@ -795,6 +800,7 @@ package asm
 //@   requires a.n >= 0 && a.n <= len(a.code)
 //@   panics (!isnil(a.code) && a.n+2 > len(a.code))
 //@   onpanic a.n == old(a.n) && a.address == old(a.address)
+//@   onpanic all(k, string, has(a.danglingS8, k) == old(has(a.danglingS8, k)) && len(a.danglingS8[k]) == old(len(a.danglingS8[k])))
 //@   onpanic all(j, int, 0 <= j && j < len(a.code) ==> a.code[j] == old(a.code[j]))
 //@   ensures w65c816.Opcode("bcs", "rel8") >= 0 && w65c816.Len(uint8(w65c816.Opcode("bcs", "rel8")), a.IsM16bit(), a.IsX16bit()) == 2
 //@   ensures a.address == old(a.address)+2
@@ -824,6 +830,7 @@ package asm
 //@   requires a.n >= 0 && a.n <= len(a.code)
 //@   panics (!isnil(a.code) && a.n+2 > len(a.code))
 //@   onpanic a.n == old(a.n) && a.address == old(a.address)
+//@   onpanic all(k, string, has(a.danglingS8, k) == old(has(a.danglingS8, k)) && len(a.danglingS8[k]) == old(len(a.danglingS8[k])))
 //@   onpanic all(j, int, 0 <= j && j < len(a.code) ==> a.code[j] == old(a.code[j]))
 //@   ensures w65c816.Opcode("bra", "rel8") >= 0 && w65c816.Len(uint8(w65c816.Opcode("bra", "rel8")), a.IsM16bit(), a.IsX16bit()) == 2
 //@   ensures a.address == old(a.address)+2
@@ -838,6 +845,7 @@ package asm
 //@   requires a.n >= 0 && a.n <= len(a.code)
 //@   panics (!isnil(a.code) && a.n+3 > len(a.code))
 //@   onpanic a.n == old(a.n) && a.address == old(a.address)
+//@   onpanic all(k, string, has(a.danglingU16, k) == old(has(a.danglingU16, k)) && len(a.danglingU16[k]) == old(len(a.danglingU16[k])))
 //@   onpanic all(j, int, 0 <= j && j < len(a.code) ==> a.code[j] == old(a.code[j]))
 //@   ensures w65c816.Opcode("jmp", "abs") >= 0 && w65c816.Len(uint8(w65c816.Opcode("jmp", "abs")), a.IsM16bit(), a.IsX16bit()) == 3
 //@   ensures a.address == old(a.address)+3
